@@ -124,6 +124,7 @@ def g_train(draw):
     return {"ubm": ubm, "items": items, "dim_t": gen.integer(draw, 1, 4), "K": gen.integer(draw, 2, 6),
             "update_sigma": gen.choice(draw, [True, True, False]), "np_seed": gen.integer(draw, 0, 99999),
             "floor": float(floor), "dead": dead, "bag": gen.choice(draw, [None, None, None, "seq", "mapped"]),
+            "isolate": gen.boolean(draw),
             "npartitions": gen.integer(draw, 1, n_items)}
 
 
@@ -146,6 +147,14 @@ def train(case, k, stats=None):
             data = db.from_sequence(list(range(len(data))), npartitions=npart).map(_Getter(data))
         else:
             data = db.from_sequence(data, npartitions=npart)
+        if case.get("isolate"):
+            # as on worker processes: every task and every intermediate result (the per-partition accumulators)
+            # crosses a cloudpickle boundary, in a generated task order
+            from vf import sched
+
+            with sched.owned("random", int(case.get("np_seed", 0)), True):
+                m.fit(data)
+            return m
     m.fit(data)
     return m
 
